@@ -223,7 +223,7 @@ var c19KnownKeys = []struct {
 	{regexp.MustCompile(`^[a-z]+:WINDOW-FRAME:(runtime-error-makeslice-cap-out-of-range|runtime-error-makeslice-len-out-of-range|timeout|out-of-memory)$`), regexp.MustCompile(c19Huge), "window-frame-huge-offset"},
 	{regexp.MustCompile(`^[a-z]+:FIXED:(out-of-memory|timeout)$`), regexp.MustCompile(`^[sS]\[\s*\]$`), "fixed-single-line-empty-positions"},
 	{regexp.MustCompile(`^[a-z]+:RAND:invalid-argument-to-intnn$`), nil, "rand-range-overflow"},
-	{regexp.MustCompile(`^[a-z]+:JSON_OBJECT:interface-conversion-json-structure-is-json-[a-z]+-not-json-object$`), nil, "json-object-path-conflict"},
+	{regexp.MustCompile(`^[a-z]+:(JSON_OBJECT|JSON-OUTPUT|--format|--out):interface-conversion-json-structure-is-json-[a-z]+-not-json-object$`), nil, "json-object-path-conflict"},
 	{regexp.MustCompile(`^[a-z]+:fifo-no-writer:timeout$`), nil, "fifo-no-writer-blocks"},
 	{regexp.MustCompile(`^[a-z]+:(SUBSTR|SUBSTRING):runtime-error-slice-bounds-out-of-range-n$`), regexp.MustCompile(c19Huge), "substring-length-overflow"},
 }
